@@ -62,8 +62,9 @@ R4 = {
  "C08-5": dict(property="C08",
    what="FundedChannel::do_best_block_updated: the early return that emits splice_locked passes Vec::new() instead of timed_out_htlcs: holding-cell HTLCs timed out by that block are never failed back",
    needs="an HTLC parked in the outbound channel's holding cell (peer not answering) AND a splice of that channel reaching its depth on exactly the block cltv_expiry - LATENCY_GRACE_PERIOD_BLOCKS",
-   checks={"tools/rehearse.sh r4c C08 <patch> quick": "PENDING"},
-   detected=[]),
+   checks={"./check C08 quick (first version)": "MISSED by construction (nothing else ever happened to a channel on a deadline block); strengthening delegated (builder deadlines5): DeadlinesMC gains coinciding per-block work (splice locking at offsets -1 / 0 / +1 around every deadline block)",
+           "tools/rehearse.sh r4c C08 <patch> quick (with the builder's work in progress)": "exit 1, 5 VIOLATION lines; baseline exit 0"},
+   detected=["C08 (after strengthening)"]),
  "C06-5": dict(property="C06",
    what="OnchainTxHandler::blocks_disconnected: entry.height > new_best_height became >=: events recorded in the fork-point block itself are treated as reorganised out: "
         "the input the cheater's HTLC-timeout spent in that block goes back into the victim's aggregated justice claim, which can never confirm again",
@@ -73,8 +74,31 @@ R4 = {
  "C11-5": dict(property="C11",
    what="OnchainTxHandler::update_claims_view_from_matched_txn records the ContentiousOutpoint event at cur_height instead of conf_height",
    needs="aggregated claim of >= 2 outpoints, a counterparty transaction spending part of them delivered through transactions_confirmed BELOW the best block already announced, then a reorg between the two heights",
-   checks={"tools/rehearse.sh r4c C11 <patch> quick": "PENDING"},
+   checks={"tools/rehearse.sh r4c C11 <patch> quick": "exit 1, 42 VIOLATION lines; baseline exit 0 (5 KNOWN-FINDING lines)"},
+   detected=["C11"]),
+ "C03-5": dict(property="C03",
+   what="ChannelManager::check_free_peer_holding_cells: HTLCs that could not be sent when the holding cell is freed are failed back only if that pass produced a monitor update: "
+        "otherwise they are dropped, the payment stays Pending for good",
+   needs="an HTLC parked behind an in-flight monitor write that has become unsendable when the write completes (config change, capacity used up meanwhile) while nothing else is released in that pass",
+   checks={"./check C03 quick (first version)": "MISSED by construction (payments never met asynchronous persistence); strengthening delegated (builder pay5)"},
    detected=[]),
+ "C04-5": dict(property="C04",
+   what="check_mpp_timeout: the completeness test became a countdown with checked_sub and == Some(0): a payment whose parts overshoot total_msat counts as incomplete and is failed back with MPPTimeout after it was shown as claimable",
+   needs="parts whose onion amounts sum to strictly more than total_msat, left unclaimed for MPP_TIMEOUT_TICKS timer ticks",
+   checks={"tools/rehearse.sh r4d C04 <patch> quick": "PENDING"},
+   detected=[]),
+ "C13-5": dict(property="C13",
+   what="msgs.rs, decoders of QueryShortChannelIds and ReplyChannelRange: the `== 0` test moved to the scid byte count: an EMPTY short_channel_ids list (encoding_len = 1) no longer decodes",
+   needs="a reply_channel_range / query_short_channel_ids carrying zero scids going through the byte decoder",
+   checks={"tools/rehearse.sh r4e C13 <patch> quick": "exit 1, 6 VIOLATION lines (QueryShortChannelIds / ReplyChannelRange size class 0); baseline exit 0"},
+   detected=["C13"]),
+ "C14-5": dict(property="C14",
+   what="FundedChannel::free_holding_cell_htlcs, ClaimHTLC arm: a claim released from the holding cell is sent without the stored attribution data: the sender's hold times are empty / truncated",
+   needs="the fulfil reaching a hop whose upstream channel cannot generate a commitment right then (awaiting a revoke_and_ack, monitor write in flight, peer disconnected)",
+   checks={"./check C14 quick (first version)": "MISSED by construction (the onion engine has no channels)",
+           "tools/trial.sh s4c14 <patch> + random 3-node `default` profile (200 runs), after the PaymentPathSuccessful event records hops / hold_times and ChanTrace.tla states G14": "rejected (run 2: hold_times 0 for a 2-hop path); accepted on the unchanged tree",
+           "tools/rehearse.sh r4d C14 <patch> quick": "PENDING"},
+   detected=["C14 (after strengthening)"]),
 }
 
 
